@@ -45,6 +45,9 @@ pub(crate) struct HonestScenario<'a> {
     pub seed: u64,
     pub phase: Cell<usize>,
     pub explore_devs: bool,
+    /// findings at the quiescent points between the phases (the tip has to be the heaviest
+    /// announced one there, too, not only at the end of the history)
+    pub interim: std::cell::RefCell<Vec<(String, String)>>,
 }
 
 impl<'a> Scenario for HonestScenario<'a> {
@@ -61,6 +64,7 @@ impl<'a> Scenario for HonestScenario<'a> {
         };
         crate::verif_hooks::rng_reset(self.seed);
         self.phase.set(0);
+        self.interim.borrow_mut().clear();
         if self.with_scripts {
             scen::register(&sim, &[(self.env.scripts.a.clone(), ScriptType::Lock, 0)]);
         }
@@ -92,6 +96,11 @@ impl<'a> Scenario for HonestScenario<'a> {
         let i = self.phase.get();
         if i >= self.phases.len() {
             return false;
+        }
+        if sim.bans().is_empty() && sim.c().out.disconnects().is_empty() {
+            for (class, detail) in tip_check(sim) {
+                self.interim.borrow_mut().push((class, format!("at the quiescent point before phase {} ({:?}): {}", i, self.phases[i], detail)));
+            }
         }
         self.phase.set(i + 1);
         match &self.phases[i] {
@@ -167,7 +176,13 @@ pub(crate) fn judge(sim: &Sim, outcome: &RunOutcome) -> Vec<(String, String)> {
             }
         }
     }
-    // heaviest announced tip
+    bad.extend(tip_check(sim));
+    bad
+}
+
+/// At quiescence the stored tip is the heaviest tip the connected peers announced.
+pub(crate) fn tip_check(sim: &Sim) -> Vec<(String, String)> {
+    let mut bad = vec![];
     let mut best: Option<(U256, ckb_types::packed::Byte32, u64)> = None;
     for p in &sim.world.peers {
         if !p.connected {
@@ -357,6 +372,23 @@ pub(crate) fn items(thorough: bool) -> Vec<Item> {
         seeds: vec![1],
         bound: bound_small,
     });
+    // two peers at different heights; the LOWER one grows block by block (the child shortcut of a
+    // proven state) while the higher one stays: the stored tip must stay the higher peer's
+    for (name, lag, steps) in [("lagging-peer-steps", 9u64, vec![10u64, 11]), ("lagging-peer-steps-near", 11, vec![12])] {
+        v.push(Item {
+            name: name.into(),
+            chain_len: 30,
+            plan: plan(5, &[16, 32, 64, 128, 256, 512]),
+            fork: None,
+            peers: vec![(1, 0, 13), (2, 0, lag)],
+            phases: steps.into_iter().map(|h| Phase::Move(2, 0, h)).chain(std::iter::once(Phase::Grow(15))).collect(),
+            last_n: n,
+            mmr_epoch: 0,
+            with_scripts: false,
+            seeds: vec![1],
+            bound: bound_small,
+        });
+    }
     // three peers, one lagging, quorum 2
     v.push(Item {
         name: "three-peers".into(),
@@ -451,6 +483,7 @@ pub(crate) fn build_scenario<'a>(env: &'a Env, item: &Item, seed: u64) -> Honest
         seed,
         phase: Cell::new(0),
         explore_devs: item.bound > 0,
+        interim: Default::default(),
     }
 }
 
@@ -484,7 +517,10 @@ pub(crate) fn run(opts: &Opts, report: &mut Report) {
         let max_runs = if thorough { 6000 } else { 1200 };
         let stats = {
             let mut judge_cb = |sim: &Sim, outcome: &RunOutcome, devs: &[(usize, Dev)], _extra: &[(String, String, usize)]| {
-                let bad = judge(sim, outcome);
+                let mut bad = judge(sim, outcome);
+                if outcome.panic.is_none() {
+                    bad.extend(sc.interim.borrow().iter().cloned());
+                }
                 let groups = crate::verif::oracle::group(bad);
                 if !groups.is_empty() {
                     let mut v = vec![];
